@@ -132,7 +132,7 @@ Proof.
   all: assert (Hex : exists r0, nth_error rs (e_r e) = Some r0 /\ eff_exact r0 e)
          by (unfold effs_ok in Hok; rewrite Forall_forall in Hok; apply Hok; exact He).
   all: destruct Hex as (r0 & Hr0 & Hm & Hb & Hw); rewrite Hej in Hr0; rewrite Hj in Hr0; inversion Hr0; subst r0; clear Hr0.
-  all: assert (Hwn : e_wn e = e_mlen e) by lia.
+  all: assert (Hwn : e_wn e <= e_mlen e) by lia.
   all: set (p := e_woff e / r_ps r + N.of_nat k).
   all: assert (Hpi : page_in (r_ps r) (e_woff e) (e_wn e) p = true) by (apply page_of_run; lia).
   all: apply page_in_overlap in Hpi; try lia; destruct Hpi as (i & Hi & Hip).
@@ -143,14 +143,48 @@ Qed.
 (* ------------------------------------------------------------------ one non-reset step, C16 *)
 Lemma kind_write_like s : is_reset s = false -> is_fd_error s = false -> kind_of s = KWriteLike.
 Proof. destruct s as [? ? []| | |]; cbn; try reflexivity; try discriminate. destruct fderr; [discriminate|reflexivity]. Qed.
-Lemma kind_fd_error s : is_fd_error s = true -> kind_of s = KFdError.
-Proof. destruct s as [? ? []| | |]; cbn; try discriminate. destruct fderr; [reflexivity|discriminate]. Qed.
+Definition fd_cnt (s : step) : N :=
+  match s with SAcc _ _ (OReadFromFd cnt _ _ _) | SAcc _ _ (OReadFromFdFault cnt _ _) => cnt | _ => 0 end.
+Lemma kind_fd_error s : is_fd_error s = true -> kind_of s = KFdError (fd_cnt s).
+Proof. destruct s as [? ? []| | |]; cbn; try discriminate; try reflexivity. destruct fderr; [reflexivity|discriminate]. Qed.
 
 Lemma beyond_clean (r' : region) np : length (r_dirty r') = N.to_nat np ->
   forallb (fun p => implb (np <=? p) (negb (nthb (r_dirty r' ++ [false; false]) p))) (indices (r_dirty r' ++ [false; false])) = true.
 Proof.
   intros Hl. apply forallb_forall. intros p _. destruct (N.leb_spec np p) as [H|H]; [|reflexivity]. cbn [implb].
   rewrite nthb_margin, nthb_ge by lia. reflexivity.
+Qed.
+
+(* a failed descriptor read has at most one effect, and it marks at most the cnt bytes asked for *)
+Lemma fd_error_effs hm rs s rs' out : is_fd_error s = true -> run_step hm rs s = (rs', out) ->
+  o_effs out = [] \/ exists e, o_effs out = [e] /\ e_mlen e <= fd_cnt s.
+Proof.
+  intros Hf H. destruct s as [ri ch o| | |]; try discriminate. cbn [run_step] in H.
+  destruct (nth_error rs ri) as [r|]; [|inversion H; left; reflexivity].
+  destruct (derive_chain (root r) ch) as [a|]; [|inversion H; left; reflexivity].
+  inversion H; subst; clear H. destruct o; try discriminate; cbn [fd_cnt].
+  - destruct fderr; [|discriminate]. unfold run_sop. destruct (a_kind a); try (left; reflexivity).
+    destruct (checked_sub (a_len a) addr); [|left; reflexivity]. right. eexists. split; [reflexivity|]. cbn. lia.
+  - unfold run_sop. destruct (a_kind a); try (left; reflexivity).
+    destruct (checked_sub (a_len a) addr); [|left; reflexivity].
+    destruct (_ || _); right; eexists; (split; [reflexivity|]); cbn; lia.
+Qed.
+
+Lemma last_In {A} (l : list A) d : l <> [] -> In (last l d) l.
+Proof.
+  induction l as [|x t IH]; intros H; [congruence|]. destruct t as [|y u]; [left; reflexivity|].
+  right. apply IH. discriminate.
+Qed.
+
+Lemma span_bound ps off m cnt : 0 < ps -> 0 < m -> m <= cnt ->
+  (off + m - 1) / ps - off / ps <= (cnt + ps - 2) / ps.
+Proof.
+  intros Hps Hm Hc. apply N.div_le_lower_bound; [lia|].
+  assert (Hle : off / ps <= (off + m - 1) / ps) by (apply N.div_le_mono; lia).
+  pose proof (N.mul_div_le (off + m - 1) ps ltac:(lia)) as H1.
+  pose proof (N.mul_succ_div_gt off ps ltac:(lia)) as H2.
+  rewrite N.mul_sub_distr_l. rewrite N.mul_succ_r in H2.
+  remember (ps * (off / ps)) as A. remember (ps * ((off + m - 1) / ps)) as B. lia.
 Qed.
 
 Lemma step_ok_C16 hm rs s rs' out : wf rs -> is_reset s = false -> run_step hm rs s = (rs', out) ->
@@ -172,7 +206,28 @@ Proof.
       destruct Hb as [Hb|[<-|[<-|[]]]]; try reflexivity. apply in_map_iff in Hb. destruct Hb as (? & <- & _). reflexivity. }
   apply andb_true_iff. split.
   - unfold view1. rewrite Htr. apply beyond_clean. rewrite Hlen, Hdl. reflexivity.
-  - destruct (is_fd_error s) eqn:Hfd; [rewrite (kind_fd_error s Hfd); reflexivity|].
+  - destruct (is_fd_error s) eqn:Hfd.
+    { (* the documented exception, bounded: every newly dirty page overlaps the (single) marked range,
+         which is at most fd_cnt s bytes long *)
+      rewrite (kind_fd_error s Hfd). unfold span_ok.
+      destruct (new_pages (view1 r) (view1 r')) as [|p0 l] eqn:En; [reflexivity|].
+      assert (Hall : forall p, In p (p0 :: l) ->
+                exists e, o_effs out = [e] /\ e_mlen e <= fd_cnt s /\ 0 < e_mlen e /\
+                          e_woff e / r_ps r <= p <= (e_woff e + e_mlen e - 1) / r_ps r).
+      { intros p Hp. rewrite <- En in Hp. unfold new_pages in Hp. apply filter_In in Hp. destruct Hp as [_ Hp].
+        rewrite (view_D rs j r p Hj), (view_D (apply_effs rs es) j r' p Hj') in Hp.
+        apply andb_true_iff in Hp. destruct Hp as [Da Db]. apply negb_true_iff in Db.
+        destruct (effs_precise rs es Hwf Hok j p Da) as [Hc|(e & r0 & i & He & Hej & Hr0 & Hi & Hip & Hsz0)]; [congruence|].
+        rewrite Hj in Hr0. inversion Hr0; subst r0; clear Hr0.
+        destruct (fd_error_effs hm rs s _ out Hfd H) as [Hn|(e0 & He0 & Hm0)]; fold es in Hn || fold es in He0.
+        - rewrite Hn in He. destruct He.
+        - rewrite He0 in He. destruct He as [<-|[]]. exists e0. split; [exact He0|]. split; [exact Hm0|].
+          split; [lia|]. rewrite <- Hip. split; apply N.div_le_mono; lia. }
+      destruct (Hall p0 (or_introl eq_refl)) as (e & He & Hm & Hpos & Hp0).
+      destruct (Hall (last (p0 :: l) p0) (last_In (p0 :: l) p0 ltac:(discriminate))) as (e' & He' & _ & _ & Hp1).
+      rewrite He in He'. inversion He'; subst e'.
+      pose proof (span_bound (r_ps r) (e_woff e) (e_mlen e) (fd_cnt s) Hps Hpos Hm) as Hsp.
+      apply andb_true_iff. split; [apply N.ltb_lt; lia|apply N.leb_le; lia]. }
     rewrite (kind_write_like s Hr Hfd).
     apply forallb_forall. intros p _.
     rewrite (view_D rs j r p Hj), (view_D (apply_effs rs es) j r' p Hj').
